@@ -12,6 +12,10 @@
     export_denotes   what `out::X_language << individual` prints scans to the token list of
                      the program's tree (outer parentheses possibly removed)
   and the instance for the shipped symbols: export_denotes_shipped.
+  replace_all (round 3b): replace_all_is_literal, replace_all_leftmost_occurrence,
+    replace_all_without_occurrence, replace_all_empty_pattern (the substitution copies `to` verbatim,
+    whatever characters it holds) and replace_all_code_is_model (the EXTRACTED body of
+    vita::replace_all computes the model's replaceAll for all arguments).
 -/
 import Vita.C19.LemmasStr
 import Vita.C19.LemmasStrip
@@ -20,6 +24,8 @@ import Vita.C19.LemmasGenome
 import Vita.C19.LemmasStream
 import Vita.C19.LemmasExact
 import Vita.C19.GenExport
+import Vita.C19.LemmasReplace
+import Vita.C19.GenReplace
 namespace Vita.C19
 
 set_option maxRecDepth 100000 in
@@ -232,6 +238,84 @@ theorem export_genome_denotes (fns : List FnSym) (tms : List TmSym) (f : Fmt)
 theorem team_export_lines (ms : List (List Ch)) (h : ∀ m ∈ ms, 10 ∉ m) :
     splitLines (teamG ms) = ms :=
   splitLines_teamG ms h
+
+/-! ### replace_all: the substitution is literal (round 3b) -/
+
+/-- `replace_all_is_literal`: for every text `s` and non-empty pattern `frm` there is ONE segmentation of `s`
+    – `occSplit frm s`, computed without looking at the replacement – such that joining the segments with
+    `frm` gives `s` back and, for EVERY replacement text `to`, `replace_all(s, frm, to)` is the segments
+    joined with `to` copied verbatim: no character of `to` (`$`, `&`, `\`, `%`, a placeholder, …) is
+    interpreted, and where the occurrences are does not depend on `to` (the inserted text is never
+    rescanned). -/
+theorem replace_all_is_literal (s frm : List Ch) (hne : frm ≠ []) :
+    joinWith frm (occSplit frm s) = s ∧
+    ∀ to, replaceAll s frm to = joinWith to (occSplit frm s) := by
+  have h : ∀ to, replaceAll s frm to = joinWith to (occSplit frm s) := by
+    intro to
+    rw [replaceAll_nonempty s frm to hne]
+    simpa [occSplit] using replGo_occGo frm to s 0 []
+  refine ⟨?_, h⟩
+  rw [← h frm, replaceAll_nonempty s frm frm hne]
+  exact replGo_self frm hne s.length s (Nat.le_refl _)
+
+/-- `replace_all_leftmost_occurrence`: if `frm` occurs in `a ++ frm ++ rest` first at the end of `a`
+    (it is a prefix of no earlier suffix), the result is `a`, then `to` verbatim, then replace_all of
+    `rest` ALONE – the scan resumes after the inserted text.  Together with
+    `replace_all_without_occurrence` this determines replace_all (induction on the length of `s`). -/
+theorem replace_all_leftmost_occurrence (a frm rest to : List Ch) (hne : frm ≠ [])
+    (hfirst : ∀ a1 a2, a = a1 ++ a2 → a2 ≠ [] → isPrefix frm (a2 ++ frm ++ rest) = false) :
+    replaceAll (a ++ frm ++ rest) frm to = a ++ to ++ replaceAll rest frm to := by
+  rw [replaceAll_nonempty _ frm to hne, replaceAll_nonempty _ frm to hne]
+  exact replGo_first frm to rest hne a hfirst
+
+/-- hypothesis of `replace_all_leftmost_occurrence`: in `%(%%1%%)` the marker occurs first after `%(` -/
+example : ∀ a1 a2 : List Ch, [37, 40] = a1 ++ a2 → a2 ≠ [] →
+    isPrefix (marker 1) (a2 ++ marker 1 ++ [41]) = false := by
+  intro a1 a2 h hne
+  cases a1 with
+  | nil => simp at h; subst h; decide
+  | cons x t =>
+    cases t with
+    | nil => simp at h; obtain ⟨_, rfl⟩ := h; decide
+    | cons y u =>
+      cases u with
+      | nil => simp at h; exact absurd h.2.2 hne
+      | cons z v => simp at h
+
+/-- `replace_all_without_occurrence`: a text in which `frm` does not occur is returned unchanged. -/
+theorem replace_all_without_occurrence (s frm to : List Ch) (h : occursIn frm s = false) :
+    replaceAll s frm to = s := by
+  unfold replaceAll
+  split
+  · rfl
+  · exact replGo_no_occurrence frm to s h
+
+/-- hypothesis of `replace_all_without_occurrence`: `%%2%%` does not contain `%%1%%` -/
+example : occursIn (marker 1) (marker 2) = false := by decide
+
+/-- `replace_all_empty_pattern`: `if (!from.empty())` – an empty pattern replaces nothing. -/
+theorem replace_all_empty_pattern (s to : List Ch) : replaceAll s [] to = s := rfl
+
+/-- the replacement `$&$1$$\1%%` is copied as it is (twice), `%%2%%` stays -/
+example : replaceAll ([40] ++ marker 1 ++ [43] ++ marker 2 ++ [42] ++ marker 1 ++ [41]) (marker 1)
+      [36, 38, 36, 49, 36, 36, 92, 49, 37, 37] =
+    [40, 36, 38, 36, 49, 36, 36, 92, 49, 37, 37, 43] ++ marker 2 ++
+      [42, 36, 38, 36, 49, 36, 36, 92, 49, 37, 37, 41] := by decide
+
+/-- `replace_all_code_is_model`: the body of `vita::replace_all` EXTRACTED from the clang AST of
+    utility.cc (`Gen.replaceAllBody`, a term of the statement language of `Vita.C19.Replace`: find /
+    replace / length / empty / npos / `=` / `+=` / `!=` / `if` / `while` / `return`), run on ANY three
+    strings with the semantics of std::string (size_t idealised: strings shorter than npos), returns
+    exactly the model's `replaceAll s frm to` – by the loop invariant `s = done ++ rest`,
+    `start = |done|`, `done` final.  The extracted term must be the loop as shipped (`canonReplaceAll`) or
+    the same loop after an early `if (from.empty()) return s;` (`canonReplaceAll2`), up to the names of the
+    variables and `size()` / `length()`. -/
+theorem replace_all_code_is_model (s frm to : List Ch) :
+    runBody Gen.replaceAllBody s frm to = some (replaceAll s frm to) := by
+  have h : Gen.replaceAllBody = canonReplaceAll ∨ Gen.replaceAllBody = canonReplaceAll2 := by decide
+  rcases h with h | h <;> rw [h]
+  · exact canon_runs s frm to
+  · exact canon2_runs s frm to
 
 /-! ### numeric constants: what `std::to_string(double)` prints, read back -/
 
